@@ -29,7 +29,7 @@ ASSUMPTIONS = [
 ]
 
 SHAPES = [(6, 6, 6), (7, 7, 7), (6, 8, 7)]
-PAIRS = ["same", "affine:0.5:-2", "affine:3:5", "mix", "noise", "negated", "gain:3", "offset:5"]
+PAIRS = ["same", "affine:0.5:-2", "affine:3:5", "mix", "noise", "negated", "gain:3", "gain:0.0001", "gain:10000", "offset:5"]
 MASKS = ["none", "binary", "soft"]
 CUTOFFS = [None, 0.4]
 TILTS = ["none", "y50:I", "y50:gen0", "x50:gen1"]
@@ -51,6 +51,13 @@ def cases(tier, seed):
                         for model in MODELS:
                             out.append({"kind": "score", "shape": list(shape), "pair": pair, "mask": mask, "cutoff": cutoff,
                                         "tilt": tilt, "model": model, "seed": seed})
+    # several candidates (searched rotations and/or templates) with a mask that is not rotation-invariant: the 4D landscape, one
+    # slice per candidate, against align()
+    for model in ("ZNCC", "NCC", "PCC"):
+        for ntemp in (1, 2):
+            for ups in (1, 2):
+                for k in range(3):
+                    out.append({"kind": "rot-landscape", "model": model, "ntemp": ntemp, "upsample": ups, "k": k})
     # call histories on ONE model object used for molecules of different orientations (what a loader does): a score, an
     # alignment or a landscape must not depend on which calls the model served before
     for model in MODELS:
@@ -236,9 +243,48 @@ def _run_history(case):
             "metrics": {"history_sequences": res["sequences"], "history_calls": res["calls"]}}
 
 
+def _run_rot_landscape(case):
+    from scipy.spatial.transform import Rotation
+
+    shape = (10, 10, 10)
+    mname, ntemp, ups, k = case["model"], case["ntemp"], case["upsample"], case["k"]
+    t0 = (data.particle_box(shape, blobs=_blobs(shape))).astype(np.float32)
+    t1 = (data.particle_box(shape, blobs=_blobs(shape)[::-1])).astype(np.float32)
+    c = data.box_coords(shape)
+    bar = (1.0 / (1.0 + np.exp((np.max(np.abs(c) / np.array([4.4, 3.2, 2.4]), axis=-1) - 1.0) * 6.0))).astype(np.float32)
+    rots = Rotation.from_rotvec([[0.0, 0.0, 0.0], [0.0, 0.0, 0.6], [0.5, 0.0, 0.0]])
+    model = _cls(mname)(t0 if ntemp == 1 else [t0, t1], mask=bar, rotations=rots)
+    quats = np.asarray(model.quaternions)
+    R = Rotation.from_quat(quats[k]).as_matrix()
+    d = np.array([1.0, -1.0, 0.0])
+    img = (2.0 * data.particle_box(shape, shift=d, rot=R, blobs=_blobs(shape)) + 0.3).astype(np.float32)
+    M = (2.0, 2.0, 2.0)
+    res = model.align(img, M)
+    lds = np.asarray(model.landscape(img, M, upsample=ups))
+    viol = []
+    sig = lambda what: f"{ID}|{mname}|{what}|candidates={'rotations' if ntemp == 1 else 'rotations x templates'}"  # noqa
+    ncand = len(quats) * ntemp
+    if lds.ndim != 4 or lds.shape[0] != ncand or not np.all(np.isfinite(lds)):
+        viol.append((sig("landscape-shape"), f"landscape shape {lds.shape} for {ncand} candidates"))
+    else:
+        cand, *am = np.unravel_index(int(np.argmax(lds)), lds.shape)
+        centre = (np.asarray(lds.shape[1:]) - 1) / 2
+        peak = (np.asarray(am, dtype=np.float64) - centre) / ups
+        tol = 1.0 / ups + 0.1 + 1e-6
+        at = lds[(int(res.label),) + tuple(np.clip(np.round(centre + np.asarray(res.shift, dtype=np.float64) * ups).astype(int), 0, np.asarray(lds.shape[1:]) - 1))]
+        rng_ = float(lds.max() - lds.min())
+        if (int(cand) != int(res.label) or np.abs(peak - np.asarray(res.shift)).max() > tol) and lds.max() - at > 0.02 * rng_:
+            viol.append((sig("argmax-vs-align"), f"planted rotation {k}, d={d.tolist()}: the landscape is maximal in candidate {int(cand)} at shift {peak.tolist()}, align reports candidate {int(res.label)} at {np.round(res.shift, 2).tolist()} (landscape there {100 * (lds.max() - at) / max(rng_, 1e-30):.0f} % of its range below the maximum)"))
+        if mname in ("ZNCC", "NCC") and abs(float(lds.max()) - float(res.score)) > 0.03:
+            viol.append((sig("peak-vs-score"), f"landscape maximum {float(lds.max()):.4f} but alignment score {float(res.score):.4f}"))
+    return {"nontrivial": True, "outcome": f"rot-landscape|{mname}|{'viol' if viol else 'ok'}", "viol": viol}
+
+
 def run_case(case):
     if case["kind"] == "landscape":
         return _run_landscape(case)
+    if case["kind"] == "rot-landscape":
+        return _run_rot_landscape(case)
     if case["kind"] == "history":
         return _run_history(case)
     shape = tuple(case["shape"])
@@ -273,6 +319,14 @@ def run_case(case):
         s2 = float(model.score((a * img).astype(np.float32), q, pos))
         if mname != "PCC" and abs(s2 - s) > 2e-4:
             viol.append((sig("gain-invariance"), f"score {s:.5f} -> {s2:.5f} after multiplying the sub-volume by {a}"))
+        if mname in ("ZNCC", "FSC"):
+            # the rescaled sub-volume through the other two entry points
+            img2 = (a * img).astype(np.float32)
+            l2 = np.asarray(model.landscape(img2, (1.0, 1.0, 1.0), quaternion=q, pos=pos))
+            c2 = float(l2[tuple(n // 2 for n in l2.shape)])
+            z2 = float(model.align(img2, (0.0, 0.0, 0.0), quaternion=q, pos=pos).score)
+            if abs(c2 - s) > 3e-4 or abs(z2 - s) > 3e-4:
+                viol.append((sig("gain-invariance"), f"score {s:.5f}; after multiplying the sub-volume by {a}: landscape centre {c2:.5f}, zero-range alignment score {z2:.5f}"))
     if pair.startswith("offset") and mname == "ZNCC" and case["mask"] == "none":
         b = float(pair.split(":")[1])
         s2 = float(model.score((img + b).astype(np.float32), q, pos))
